@@ -21,7 +21,7 @@ func init() {
 	}, CommonAssumptions...)
 }
 
-var c19Names = []string{"a", "b", "c", "d", "e", "ab", "Z", "é", "a b", "0"}
+var c19Names = []string{"a", "b", "c", "d", "e", "ab", "Z", "é", "a b", "0", "a\"", "a#", "x<y", "x=y", "a\\b", "\u2028"}
 
 type c19gen struct {
 	c       *Ctx
@@ -92,6 +92,12 @@ func (g *c19gen) schema(depth int) *jsonschema.Schema {
 		s.Properties = map[string]*jsonschema.Schema{}
 		for _, n := range subset(c, c19Names, 0, 6) {
 			s.Properties[n] = g.schema(depth - 1)
+		}
+		if c.W(14) == 0 {
+			// a wide level: size thresholds (pooled buffers, pre-sized tables) start to matter
+			for i, n := 0, 33+c.W(30); i < n; i++ {
+				s.Properties[fmt.Sprintf("w%02d", i)] = &jsonschema.Schema{Type: "string"}
+			}
 		}
 		noDupBudget := g.hasDup
 		s.PropertyOrder = g.order(s.Properties)
